@@ -42,7 +42,7 @@ ASSUMPTIONS = [
     "dataclass parameters are restricted to the field shapes C03 found to round-trip, so C03's findings are not re-reported",
     "float64 values sent into float32 fields are generated float32-exact (IEEE narrowing is not counted as a silent change)",
 ]
-SHARDS = {"quick": 1, "thorough": 16}
+SHARDS = {"quick": 2, "thorough": 16}
 TECHNIQUE = (
     "property-based testing (Hypothesis): generated Protocol signatures + values, echo round-trip oracle with structural "
     "equality against an independently built reference value, differential across transports"
@@ -215,11 +215,14 @@ def run_case(case: dict, transports: list[str] | None = None) -> Outcome:
     for c in calls:
         if "bad" in c:
             out.label("bad=" + c["bad"]["kind"])
+    from vgi_rpc.rpc import RpcServer
+
+    server = RpcServer(proto, impl)  # one server object serves every transport of the case
     observed: dict[str, list] = {}
     for tr in transports or case.get("transports") or QUICK_TRANSPORTS:
         obs: list = []
         observed[tr] = obs
-        with G.open_transport(tr, proto, impl) as conn:
+        with G.open_transport(tr, proto, impl, server=server) as conn:
             for ci, c in enumerate(calls):
                 m = methods[c["m"]]
                 obs.append(_one_call(out, tr, conn, rec, env, m, c, ci))
@@ -237,6 +240,25 @@ def run_case(case: dict, transports: list[str] | None = None) -> Outcome:
             break
     out.note = {"methods": [[m["name"], [G.type_sig(p["t"]) for p in m["params"]]] for m in methods], "outcomes": kinds}
     return out
+
+
+def _server_dead(conn: Any, err: BaseException | None, invoked: bool) -> bool:
+    """Did the in-process server loop die?  Waits (bounded) only when the failure looks like a dropped connection.
+
+    An ``RpcError`` carrying a server-side error type proves the loop answered and is alive; an exception raised
+    before the request was written (client-side validation / Arrow conversion, method never invoked) says nothing
+    about the server.  Only an empty / torn response is ambiguous, and then the thread gets 1 s to finish dying.
+    """
+    from vgi_rpc.rpc import RpcError
+
+    if err is None or conn.thread is None:
+        return False
+    if conn.crashed:
+        return True
+    torn = isinstance(err, (StopIteration, EOFError, OSError)) or (isinstance(err, RpcError) and err.error_type == "TransportError")
+    if torn or (invoked and not isinstance(err, RpcError)):
+        return bool(conn.settle())
+    return False
 
 
 def _is_opt_dc(t: dict) -> bool:
@@ -265,8 +287,8 @@ def _one_call(out: Outcome, tr: str, conn: Any, rec: list, env: G.Env, m: dict, 
         err: BaseException | None = None
     except Exception as e:  # every failure mode of a call is an acceptable *rejection*; judged below
         result, err = None, e
-    dead = conn.settle() if err is not None else False
     invoked = [r for r in rec if r[0] == m["name"]]
+    dead = _server_dead(conn, err, bool(invoked))
     rp = m["params"][m["ret"]]
     ret_t = m.get("ret_t")
     if not bad:
@@ -342,5 +364,5 @@ def run_thorough(case: dict) -> Outcome:
 
 
 def main(chk: Check) -> None:
-    chk.explore("echo", cases(), run_case, quick=700, thorough=12000)
-    chk.explore("echo_all_transports", cases(), run_thorough, quick=60, thorough=3000)
+    chk.explore("echo", cases(), run_case, quick=700, thorough=10000)
+    chk.explore("echo_all_transports", cases(), run_thorough, quick=60, thorough=2400)
